@@ -522,4 +522,9 @@ def gen_ec_heavy(rng, tier):
             cases.append("verify %s %s %s %s" % (pub, hx(b32(m)), hx(b32(0)), hx(b32(lo))))
             cases.append("verify %s %s %s %s" % (pub, hx(b32(m)), hx(b32(r)), hx(b32(0))))
             cases.append("verify %s %s %s %s" % (pub, hx(b32(m)), hx(b32(r)), hx(b32(n))))
+    # CKey::Sign: RFC6979 nonce, low-S, low-R grinding -- byte-equal signatures
+    for key in [1, n - 1] + [rng.randrange(1, n) for _ in range(2 * N)]:
+        cases.append("sign %s %s" % (hx(b32(key)), hx(b32(rng.randrange(1 << 256)))))
+    cases.append("sign %s %s" % (hx(b32(rng.randrange(1, n))), hx(b32(n + 1))))
+    cases.append("sign %s %s" % (hx(b32(0)), hx(b32(5))))
     return cases
